@@ -1,13 +1,49 @@
 /-
-  Driver/SpecCmd.lean — `spec <Cxx> …` commands: Bool twins of the property Specs, evaluated on
-  observations taken from the implementation.
+  Driver/SpecCmd.lean — `spec <name> …` commands: Bool twins of the property Specs, evaluated on
+  observations taken from the implementation.  Answers `ok`, `fail` or `bad-spec`.
 -/
 import SchedVerif.Driver.Parse
+import SchedVerif.Spec.Occ
 namespace SV.Drv
 open SV
 
+/-- `<call 1..4> [wd] h m s us off` -/
+def timingP : P Timing := do
+  let c ← nat
+  match c with
+  | 1 => do let t ← tod; pure (.minutely t)
+  | 2 => do let t ← tod; pure (.hourly t)
+  | 3 => do let t ← tod; pure (.daily t)
+  | 4 => do let wd ← int; let t ← tod; pure (.weekly wd t)
+  | _ => failure
+
+def okB (b : Bool) : String := if b then "ok" else "fail"
+
+def specP : P String := do
+  let name ← tok
+  match name with
+  | "least" => do
+      -- least occurrence strictly after r is u
+      let tm ← timingP; let r ← int; let u ← int
+      pure (okB (leastAfterB tm r u))
+  | "step" => do
+      -- one execution moved the due instant by exactly one period
+      let tm ← timingP; let prev ← int; let new ← int
+      pure (okB (new == prev + tm.period))
+  | "eq" => do
+      let a ← int; let b ← int
+      pure (okB (a == b))
+  | "lt" => do
+      let a ← int; let b ← int
+      pure (okB (a < b))
+  | "le" => do
+      let a ← int; let b ← int
+      pure (okB (a ≤ b))
+  | _ => failure
+
 def specCmd (toks : List String) : String :=
-  match toks with
-  | _ => "bad-spec"
+  match runP specP toks with
+  | some s => s
+  | none => "bad-spec"
 
 end SV.Drv
